@@ -12,5 +12,11 @@ CHECKS.update({
  'C19': ('exploration', '2-8 cooperative client tasks, one handle each, interleaved call by call by a seeded scheduler (uniform, round-robin, bursty, starving); per-task transcript and final store equal the solo run; error state of other handles unchanged after every step', '3 C19'),
  'C14': ('exploration', 'one plan executed over path, descriptor (close_desc 0/1), virtual I/O, embedded-at-offset (read and write) and FIFO transports on the simulated OS: transcripts, stores and descriptor ownership compared', '3 C14'),
 })
+CHECKS.update({
+ 'C12': ('exploration', 'metadata set-ops (strings, bext, cart, cues, instrument, channel map) in seeded orders, before and after the audio, + header updates; close, cold re-open, getters compared with a per-field map model carrying only the documented normalisations; audio compared with the value model', '3 C12'),
+ 'C13': ('exploration', '0..200 sf_set_chunk calls (capacity steps crossed, short / reserved / long ids in a quarter of the plans, payloads up to 64 KiB), late chunks, then iterator histories after re-open (by id, full walk, next-after-last, datalen variants in exact-size buffers) against a list model; ASan + invariant hook on the chunk tables', '3 C13'),
+ 'C18': ('exploration', 'float/double write partitions against a running-max / first-index model, checked in the PEAK chunk bytes and through SFC_GET_*; SFC_CALC_* injected at seeded read positions, compared with an independent sequential decode, position / normalisation restored, following reads unchanged', '3 C18'),
+ 'C17': ('exploration', 'command storm client injected into write / read / read-write histories: every command id (and undefined ids) x datasize variants x {NULL, exact-size heap block}; ASan on the exact-size block, NUL termination, purity of queries by state digest and by differential replay without the injected queries', '3 C17'),
+})
 PENDING = {p: 'check designed in DESIGN.md section 3 but not built yet in this revision (to be claimed when its profile exists)' for p in
-           ['C12', 'C13', 'C17', 'C18']}
+           []}
